@@ -231,7 +231,12 @@ impl NameCompressor {
             }
             entry = &entry[..entry.len() - first.as_wire().len()];
 
-            for label in name_labels.clone() {
+            loop {
+                // Only consume a label from 'name_labels' once it matched.
+                let mut probe = name_labels.clone();
+                let Some(label) = probe.next() else {
+                    break;
+                };
                 if entry.len() < label.as_wire().len()
                     || !entry[entry.len() - label.as_wire().len()..]
                         .eq_ignore_ascii_case(label.as_wire())
@@ -239,6 +244,7 @@ impl NameCompressor {
                     break;
                 }
                 entry = &entry[..entry.len() - label.as_wire().len()];
+                name_labels = probe;
             }
 
             // Suffixes from 'entry' that were also in 'name' have been
